@@ -7,10 +7,15 @@ import AiocoapModel.Uri.HostPort
 leading C0 controls/space stripped, TAB/CR/LF removed, scheme recognised only when it is
 `ALPHA *( ALPHA / DIGIT / "+" / "-" / "." )`, netloc up to the first of `/?#`, bracket sanity
 checks), so that the model can start from the *text* that `set_request_uri` receives and that
-`get_request_uri` produces.  Not restated: the NFKC check of non-ASCII netlocs
-(`_checknetloc`) and Unicode lower-casing of a non-ASCII host — the driver answers
-`out-of-model` for a non-ASCII netloc.  `urlparse` adds `params`, which are only split off for
+`get_request_uri` produces.  The NFKC check of non-ASCII netlocs (`_checknetloc`) is restated
+as the table `nfkcDelims` (the harness compares the table with `unicodedata` over all code points
+on every run).  `urlparse` adds `params`, which are only split off for
 schemes in `uses_params`; the CoAP schemes are not, so `params = ""` throughout.
+
+Nothing in `urlsplit` itself applies a Unicode-wide `str` predicate to the text: the C0/space
+strip and TAB/CR/LF removal name their characters, the scheme test is `isascii() and isalpha()`
+plus membership in the ASCII `scheme_chars`, `.lower()` is applied to an all-ASCII scheme only.
+(`SplitResult.hostname` does call `str.lower()` on the host: see `Uri/HostPort.lean`.)
 -/
 namespace Aiocoap.Uri
 
@@ -63,6 +68,29 @@ def bracketsOk (ip : IpOracle) (netloc : Bytes) : Bool :=
   else if netloc.contains 91 then bracketedOk ip (before 93 (after 91 netloc))
   else true
 
+/-- `pat` occurs in `s` as a contiguous run -/
+def hasInfix (pat : Bytes) : Bytes → Bool
+  | [] => pat.isEmpty
+  | x :: r => pat.isPrefixOf (x :: r) || hasInfix pat r
+
+/-- UTF-8 encodings of the code points whose NFKC form contains one of `/ ? # @ :` (Unicode
+15.0, the `unicodedata` of CPython 3.12): U+2047 U+2048 U+2049 (`??` `?!` `!?`), U+2100 U+2101
+U+2105 U+2106 (`a/c` `a/s` `c/o` `c/u`), U+2A74 (`::=`), U+FE13 U+FE16 U+FE55 U+FE56 U+FE5F U+FE6B
+(vertical / small forms of `: ? : ? # @`), U+FF03 U+FF0F U+FF1A U+FF1F U+FF20 (fullwidth
+`# / : ? @`).  None of the five ASCII characters combines with a following mark under NFC, so
+"`c in NFKC(n)`" is "some character of `n` is in this table". -/
+def nfkcDelims : List Bytes :=
+  [[226,129,135], [226,129,136], [226,129,137], [226,132,128], [226,132,129], [226,132,133],
+   [226,132,134], [226,169,180], [239,184,147], [239,184,150], [239,185,149], [239,185,150],
+   [239,185,159], [239,185,171], [239,188,131], [239,188,143], [239,188,154], [239,188,159],
+   [239,188,160]]
+
+/-- `_checknetloc(netloc)` raises: the netloc is not ASCII and, with its own `@ : # ?` set aside,
+its NFKC form contains one of `/ ? # @ :` (UTF-8 is self-synchronising: a character occurs in the
+text iff its encoding occurs in the bytes) -/
+def nfkcBad (netloc : Bytes) : Bool :=
+  netloc.any (fun c => 128 ≤ c) && nfkcDelims.any (fun d => hasInfix d netloc)
+
 /-- scheme, netloc and the remaining text (`_splitnetloc(url, 2)` when it starts with `//`) -/
 def splitAuthority (u : Bytes) : Bytes × Bytes × Bytes :=
   let sr := splitScheme (sanitise u)
@@ -74,6 +102,7 @@ def splitAuthority (u : Bytes) : Bytes × Bytes × Bytes :=
 def urlsplit (ip : IpOracle) (u : Bytes) : Option Parsed :=
   let a := splitAuthority u
   if !bracketsOk ip a.2.1 then none else
+  if nfkcBad a.2.1 then none else
   some { scheme := a.1, netloc := a.2.1,
          path := before 63 (before 35 a.2.2),
          query := after 63 (before 35 a.2.2),
